@@ -49,7 +49,7 @@ ASSUMPTIONS = [
     "NumPy scalars and all-numeric sequences are compared by value, rng generators / loggers / summary writers by kind only, NaN == NaN",
     "dict / attribute order and array memory layout are not part of structural equality; aliasing between members is not compared",
 ]
-BUDGET = {"quick": {"soft_s": 150}, "thorough": {"soft_s": 900}}
+BUDGET = {"quick": {"soft_s": 300}, "thorough": {"soft_s": 1200}}
 MIN_EVALUATIONS = {"quick": 800, "thorough": 3000}
 REQUIRED_COUNTERS = ["eval:roundtrip_differs", "eval:cross_store_differs", "eval:fixed_point_differs", "eval:history_stale_load", "eval:after_error_differs"]
 EXHAUSTIVE = {"quick": False, "thorough": False}
